@@ -699,6 +699,11 @@ impl Mon {
 				results.push(("parse_utf8", real::parse_entry(4, s, Opts::STRICT)));
 				results.push(("parse_infallible", real::parse_entry(10, s, Opts::STRICT)));
 			}
+			// and every entry point that returns a code map in turn
+			if self.tick % 4 == 1 || b.len() <= 12 {
+				let i = (self.tick / 4) as usize % 12;
+				results.push((real::STR_ENTRIES[i], real::parse_entry(i, s, Opts::STRICT)));
+			}
 		}
 		// the typed `Parse` impls on documents that are exactly one scalar token
 		if let (Some(s), Some(root)) = (text, &rd.root) {
